@@ -7,6 +7,26 @@ VERIF = os.path.dirname(os.path.dirname(os.path.abspath(__file__)))
 
 # id -> (category, technique, level text, level note, design ref)
 CHECKS = {
+    "C12": (
+        "fault_enumeration",
+        "exhaustive hostile-message catalogue x target kind x insertion position x transport {TCP, TTY, direct} + Hypothesis-filled names/values, survival and state-frame oracle on real handlers over fake streams",
+        "Fault enumeration: every entry of a catalogue of hostile-but-well-formed client messages is injected at every position of a "
+        "session of valid traffic on each transport; afterwards nothing may have escaped message handling, only validly named elements "
+        "may have changed (to the submitted values), the sender and a bystander must still be registered and served, and a valid request "
+        "sent right after must be answered without padding. Hypothesis adds free-form names and values.",
+        "Trusted: harness/session.py (fake streams, snapshots through driver attributes); minimal reading of 'not disturbed'.",
+        "DESIGN.md section 4, C12",
+    ),
+    "C14": (
+        "exploration",
+        "Hypothesis handler configurations x element kinds x op sequences x 1-2 instances, handler-trace vs analytic expectation",
+        "Generated-input search over handler configurations and write sequences: handlers are tracing closures declared through the "
+        "documented @on decorator on generated driver classes; after each operation the trace, the element value and the recorded "
+        "publications are compared with the analytic expectation of the event contract (Write once and first, veto, one publication "
+        "iff enabled, Change iff changed with (old,new), Read before return, no foreign handlers). Exploration.",
+        "Trusted: the analytic expectation in harness/props/c14.py; AnyOfMany switches so the requested value is the value taken.",
+        "DESIGN.md section 4, C14",
+    ),
     "C15": (
         "exploration",
         "Hypothesis message streams over a small name universe (redefinition, kind mismatch, unknown targets, deletions) x foreign spellings x fragmentation, reference-client differential after every message",
